@@ -12,8 +12,8 @@ import (
 func init() {
 	register(&Property{
 		Meta: PropMeta{
-			ID:    "C12",
-			Level: "other",
+			ID:          "C12",
+			Level:       "other",
 			Explanation: "Agreement between the INI writer and the INI reader, decided on the SSA of /repo — table agreement only, not the round trip itself: (KINDS) convertToString renders every kind convert accepts, each strconv formatter is reachable for exactly its own kinds (FormatInt of val.Int() for signed, FormatUint of val.Uint() for unsigned, FormatFloat with the type's bit size for floats) and the rendering base is read from the same tag with the same default as the parsing base; (QUOTE) the writer's only quoting primitive is strconv.Quote in writeOption and the reader's only unquoting primitive is strconv.Unquote; a value is written raw only when quoting is not forced and it is not a string or isPrint holds, where isPrint is ∀ rune strconv.IsPrint; forced quoting is Option.iniQuote, stored only by the reader; (FUNNEL) option values reach the output only through writeOption, called only from writeGroupIni; (OMIT) skipping and commenting use the same valueIsDefault() of the same option; (NAMES) the written name is the name the entry was read under, else the ini-name tag, else the field name — each of which the reader's optionByName resolves; (MAPKEYS) map keys are sorted before being written; (LINES) the reader reassembles long lines by copying every chunk; (NP) the reader cannot panic on any text (C14's prover over the same scope).",
 			NotDecided:  "the round trip itself: whether read(write(v)) == v for every string is a relation over values — in particular the writer's raw-path predicate (isPrint) versus the reader's normalisations (TrimSpace, leading '\"' means quoted) is a question about string predicates that no shape rule answers. By reading, a printable string with surrounding blanks or a leading quote does not round-trip on the pinned tree; no rule here reports that and it is not claimed.",
 			Trusted:     []string{"go/ssa lowering", "go/types", "strconv.Quote / Unquote are inverses", "strconv.Format* / Parse* are inverses for the same base and bit size"},
